@@ -166,7 +166,7 @@ class QCow2(AlignedStream):
                 self.unknown_extensions.append((ext, self.fh.read(ext.len)))
 
             # Align to nearest 8 byte boundary
-            offset += (ext.len + 7) & 0xFFFFFFF8
+            offset += (ext.len + 7) & ~7
 
     @cached_property
     def snapshots(self) -> list[QCow2Snapshot]:
